@@ -509,6 +509,18 @@ func Join(A, B *State, live func(Atom) bool, widen bool) *State {
 			}
 		}
 	}
+	for k, a := range A.fub {
+		if b, ok := B.fub[k]; ok {
+			w := a
+			if b.Val > a.Val || b.Val == a.Val && !b.Strict {
+				w = b
+			}
+			if J.fub == nil {
+				J.fub = map[string]FBound{}
+			}
+			J.fub[k] = w
+		}
+	}
 	for k, v := range A.loadMemo {
 		if w, ok := B.loadMemo[k]; ok && w == v {
 			if J.loadMemo == nil {
